@@ -1,6 +1,7 @@
 (* Evaluation entry points for C08 cases (sat.model_count, props.signal_probability(approx=False), DIMACS export). *)
 From stdpp Require Import strings gmap sets fin_sets.
 From CG Require Export Run.SatRun.
+From CG Require Import Gen.Gen_cnf.
 Local Open Scope list_scope.
 
 Inductive case :=
@@ -38,24 +39,31 @@ Definition var_set_eq (l1 l2 : list var) : bool :=
   forallb (λ x, existsb (var_eqb x) l2) l1 && forallb (λ x, existsb (var_eqb x) l1) l2.
 Fixpoint nodupv (l : list var) : bool := match l with [] => true | x :: r => negb (existsb (var_eqb x) r) && nodupv r end.
 
+(* the model's enumeration loop is replayed with a naive complete solver (cubic in the number of models), so only for at most
+   2^5 startpoint valuations; beyond that `agree` compares the outcome of construct_solver only (the count itself is then judged by
+   `holds`, and its independence of the solver is C08_model_count) *)
+Definition replayable (c : circuit) : bool := (size (startpoints c) <=? 5)%nat.
 Definition agree (k : case) : bool :=
   match k with
   | CCount C ords A obs =>
       let ord := mk_ord (c_g C) ords in
       let Am : gmap string bool := list_to_map A in
       match obs with
-      | Ok k => match all_consistent (c_g C) with
-                | Vals V => bool_decide (model_count (brute_solver V) C ord Am = Ok k)
-                | TooBig => true
-                | CertFail => false
-                end
+      | Ok k => if replayable (c_g C) then
+                  match all_consistent (c_g C) with
+                  | Vals V => bool_decide (model_count (brute_solver V) C ord Am = Ok k)
+                  | TooBig => true
+                  | CertFail => false
+                  end
+                else bool_decide (rmap (λ _, ()) (cnf_assume gen_cnf_tables C ord Am) = Ok ())
       | _ => bool_decide (model_count (λ _, None) C ord Am = obs)
       end
   | CProb C n obs =>
       match obs with
       | Ok (p, q) =>
           match subcircuit C (cone (c_g C) n) with
-          | Ok Sc => match all_consistent (c_g Sc) with
+          | Ok Sc => if negb (replayable (c_g Sc)) then true else
+                    match all_consistent (c_g Sc) with
                     | Vals V => match signal_probability (brute_solver V) C n with
                                 | Ok r => bool_decide ((QArith_base.Qnum r * Z.of_nat q = Z.of_nat p * Z.pos (QArith_base.Qden r))%Z)
                                 | _ => false
@@ -75,11 +83,12 @@ Definition agree (k : case) : bool :=
       | Ok (nv, ncl, _, _, ind, cls, cnt), Ok d =>
           (nv =? d_nv d)%nat && (ncl =? d_ncl d)%nat && cnf_eq cls (d_clauses d) && var_set_eq ind (d_ind d)
           && (length ind =? length (d_ind d))%nat
-          && match all_consistent (c_g C) with
-             | Vals V => bool_decide (model_count (brute_solver V) C ord Am = Ok cnt)
-             | TooBig => true
-             | CertFail => false
-             end
+          && (negb (replayable (c_g C)) ||
+              match all_consistent (c_g C) with
+              | Vals V => bool_decide (model_count (brute_solver V) C ord Am = Ok cnt)
+              | TooBig => true
+              | CertFail => false
+              end)
       | Raise e, Raise e' => bool_decide (e = e')
       | _, _ => false
       end
